@@ -58,8 +58,11 @@ func c10TokenBodies(provider string) []c10Body {
 			{"json-null", `null`, false},
 		}
 	}
+	// Okta and Cognito take the email from the userinfo call; the id_token they also receive names
+	// ANOTHER, unverified address, which must never end up in a session
+	other := claims(`{"email":"not.vouched@evil.test","email_verified":false}`)
 	return []c10Body{
-		{"complete", tok("x.y.z"), true},
+		{"complete", tok(other), true},
 		{"no-access-token", `{"refresh_token":"r","expires_in":3600}`, false},
 		{"truncated-json", `{"access_token":"idp-acc`, false},
 		{"empty-body", ``, false},
@@ -74,7 +77,9 @@ func c10UserinfoBodies(provider string) []c10Body {
 		{"complete-verified", `{"email":"` + c10Email + `","email_verified":true,"groups":["eng"]}`, true},
 		{"email-verified-false", `{"email":"` + c10Email + `","email_verified":false}`, !ver},
 		{"email-verified-absent", `{"email":"` + c10Email + `"}`, !ver},
-		{"email-verified-string", `{"email":"` + c10Email + `","email_verified":"true"}`, false},
+		// Cognito reports email_verified as a string and the statement does not require it there; for
+		// Okta (boolean field) a string is a malformed answer
+		{"email-verified-string", `{"email":"` + c10Email + `","email_verified":"true"}`, !ver},
 		{"empty-email", `{"email":"","email_verified":true}`, false},
 		{"no-email", `{"email_verified":true,"sub":"123"}`, false},
 		{"truncated-json", `{"email":"` + c10Email, false},
